@@ -15,6 +15,7 @@ pub enum Src {
     Corpus,
     Subst,
     Canary,
+    Lex,
 }
 impl Src {
     pub fn name(self) -> &'static str {
@@ -27,6 +28,7 @@ impl Src {
             Src::Corpus => "g_corpus",
             Src::Subst => "g_subst",
             Src::Canary => "g_canary",
+            Src::Lex => "g_lex",
         }
     }
 }
@@ -58,11 +60,11 @@ impl StreamCfg {
     }
     pub fn describe(&self) -> String {
         format!(
-            "G-wide: all sequences of <= {} subtags over {} boundary-class tokens ({} inputs); G-narrow: <= {} over {} tokens ({}); G-langid: <= {} over {} tokens ({}); {} rendered random well-formed locales; {} near-miss mutations (1-3 edits, one third directly after the unmutated input); byte-substitution sweep (every position of {} identifiers x 256 byte values, each after its original); corpus x {} suffixes: {}",
+            "G-wide: all sequences of <= {} subtags over {} boundary-class tokens ({} inputs); G-narrow: <= {} over {} tokens ({}); G-langid: <= {} over {} tokens ({}); {} rendered random well-formed locales; {} near-miss mutations (1-3 edits, one third directly after the unmutated input); byte-substitution sweep (every position of {} identifiers x 256 byte values, each after its original); real-world lexicon ({} words x 20 frames, variant pairs, key x type pairs); corpus x {} suffixes: {}",
             self.wide_len, gen::WIDE.len(), gen::seq_space(gen::WIDE.len(), self.wide_len),
             self.narrow_len, gen::NARROW.len(), gen::seq_space(gen::NARROW.len(), self.narrow_len),
             self.langid_len, gen::LANGID_ALPHA.len(), gen::seq_space(gen::LANGID_ALPHA.len(), self.langid_len),
-            self.n_struct, self.n_mutate, gen::SUBST_POOL.len(), gen::SUFFIXES.len(), self.corpus
+            self.n_struct, self.n_mutate, gen::SUBST_POOL.len(), crate::lexicon::word_count(), gen::SUFFIXES.len(), self.corpus
         )
     }
 }
@@ -114,6 +116,12 @@ pub fn byte_stream(ctx: &mut Ctx, cfg: &StreamCfg, f0: &mut dyn FnMut(&mut Ctx, 
         gen::enum_seq(gen::LANGID_ALPHA, cfg.langid_len, shard, n, &mut |b| {
             mon::begin_case(b);
             f(ctx, b, Src::LangidAlpha)
+        });
+    }
+    if cfg.corpus {
+        gen::enum_lex(shard, n, &mut |b| {
+            mon::begin_case(b);
+            f(ctx, b, Src::Lex)
         });
     }
     mon::idle();
